@@ -102,7 +102,8 @@ class C10(BaseCheck):
   ID = 'C10'
   RULE = ('case = fresh TimerQueue(resolution r in {0.01,0.1,1,0,None}) driven by 1-4 '
           'producer greenlets issuing Schedule/cancel/sleep ops at seeded virtual instants '
-          '(incl. grid-aligned boundary class, past deadlines, ties, cancel of head / of run '
+          '(incl. grid-aligned boundary class, past deadlines, deadlines minutes ahead with long quiet stretches, '
+          'ties, cancel of head / of run '
           'action / twice); non-trivial = at least one action ran and one race class was hit; '
           'distinct by (r, set of race classes, size bucket, boundary?). Each worker additionally runs one short '
           'real-clock anchor on gevent\'s real libev loop (once / not early / cancelled-in-time never runs; lateness '
@@ -111,7 +112,7 @@ class C10(BaseCheck):
              'scales.timer_queue:TimerQueue.Schedule')
   REQUIRED_ANCHORS = ANCHORS
   REQUIRED_CLASSES = ('new-head-while-sleeping', 'past-deadline', 'tie', 'cancel-head',
-                      'boundary')
+                      'boundary', 'far-deadlines')
   ASSUMPTIONS = ('virtual clock: no timer lateness is injected (J=0), so lateness bounds are exact',
                  'rounded deadline computed in exact rationals; actions within 2us of a grid '
                  'point are exempt from the ordering clause only')
@@ -175,12 +176,17 @@ class C10(BaseCheck):
     reff = res or 0.01
     q = TimerQueue(time_source=env.clock.time, resolution=res)
     boundary = rng.random() < 0.3
+    # far deadlines: minutes ahead, with long quiet stretches in which nothing wakes the worker
+    far = rng.random() < 0.2
+    far_scale = rng.choice([70.0, 400.0]) / (50 * reff) if far else 1.0
     nprod = rng.randint(1, 4)
     big = 500 if tier == 'thorough' else 200
     nops = rng.choice([4, 10, 30, 80, big])
     actions = []
     handles = []
     races = set()
+    if far:
+      races.add('far-deadlines')
     if boundary:
       races.add('boundary')
       # start the whole case on a grid point
@@ -216,7 +222,7 @@ class C10(BaseCheck):
             other = rng.choice(actions)
             delta = other['T'] - env.now
           else:
-            delta = rng.random() * rng.choice([2, 10, 50]) * reff
+            delta = rng.random() * rng.choice([2, 10, 50]) * reff * far_scale
           if boundary and rng.random() < 0.7:
             delta = round(delta / reff) * reff
           T = env.now + delta
@@ -256,7 +262,7 @@ class C10(BaseCheck):
           elif k < 0.5 or boundary:
             gevent.sleep(rng.randint(0, 4) * reff)
           else:
-            gevent.sleep(rng.random() * rng.choice([0.5, 3, 12]) * reff)
+            gevent.sleep(rng.random() * rng.choice([0.5, 3, 12]) * reff * far_scale)
           slices[0] += 1
 
     per = max(1, nops // nprod)
